@@ -222,6 +222,10 @@ fn data_line() -> impl Strategy<Value = String> {
         2 => "-?[0-9]{1,6}(\\.[0-9]{1,4})?",
         2 => "\"[ -!#-~]{0,8}\"",
         1 => "[a-z]{1,4} \"[a-z]{1,4}\"",
+        // blanks that are not ASCII in front of / behind an item
+        1 => "[\u{a0}\u{3000}\u{2003}]\"[ -!#-~]{0,8}\"",
+        1 => "\"[a-z,]{1,5}\"[\u{a0}\u{3000}]",
+        1 => "[\u{a0}\u{3000}][a-z0-9]{1,4}[\u{a0}\u{2003}]",
         1 => "[a-z]{1,3}\"[a-z]{0,3}",
         1 => Just("".to_string()),
         1 => "[ -+\\--9;-~]{0,10}",
@@ -306,7 +310,7 @@ pub fn property() -> Property {
     ];
     Property {
         id: "C14",
-        rule: "Stored programs built from: every ordered pair (thorough: triple) of token-class representatives typed with and without a separating blank (exhaustive); numerals in many spellings (leading dot, leading/trailing zeros, up to 400 digits, tiny fractions, spaced digits) in 10 contexts incl. directly after an identifier; DATA statements with quoted / bare / numeric / empty / quote-containing / inf-nan-exponent items, odd spacing and trailing statements; REM tails and strings with arbitrary Unicode; random atom lines; the token-dense segment lines of C12 (identifiers over every letter, tight digit-letter-sign-digit runs such as 5e-3, spaced operators, DATA chunks, REM tails); structured programs from the grammar rendered with random spacing/case; the repo's two sample programs. Oracle: LIST of the original == LIST after typing that listing into a fresh interpreter (every listed line must be accepted), then RUN of both (same seed, reply 1 to INPUTs, 3000-turn budget) gives identical output records and outcome, and RESTORE + repeated READ into a string variable yields the identical DATA item sequence. Non-trivial: the listing differs from the typed text and contains DATA, a decimal point or >= 3 tokens; distinct by listing.",
+        rule: "Stored programs built from: every ordered pair (thorough: triple) of token-class representatives typed with and without a separating blank (exhaustive); numerals in many spellings (leading dot, leading/trailing zeros, up to 400 digits, tiny fractions, spaced digits) in 10 contexts incl. directly after an identifier; DATA statements with quoted / bare / numeric / empty / quote-containing / inf-nan-exponent items, items wrapped in non-ASCII blanks (no-break, ideographic, em space), odd spacing and trailing statements; REM tails and strings with arbitrary Unicode; random atom lines; the token-dense segment lines of C12 (identifiers over every letter, tight digit-letter-sign-digit runs such as 5e-3, spaced operators, DATA chunks, REM tails); structured programs from the grammar rendered with random spacing/case; the repo's two sample programs. Oracle: LIST of the original == LIST after typing that listing into a fresh interpreter (every listed line must be accepted), then RUN of both (same seed, reply 1 to INPUTs, 3000-turn budget) gives identical output records and outcome, and RESTORE + repeated READ into a string variable yields the identical DATA item sequence. Non-trivial: the listing differs from the typed text and contains DATA, a decimal point or >= 3 tokens; distinct by listing.",
         assumptions: vec!["behaviour under RUN is compared up to a 3000-turn budget"],
         fuzz: Some(FuzzSpec { target: "c14_roundtrip", runs: 300_000, max_len: 512, verdict: crate::fuzz::c14_verdict }),
         families,
